@@ -135,7 +135,47 @@ def _job(job):
     doc, _e, _r = build_doc(ad, D, cat)
     times = job["times"]
     obs = [observe_styles(doc, t, D, job.get("focus") or (), ad.get("t0", 0)) for t in times]
-    return {"id": rid, "doc": {k: sdoc[k] for k in SDOC_FIELDS}, "times": times, "obs": obs, "focus": job.get("focus", [])}
+    rec = {"id": rid, "doc": {k: sdoc[k] for k in SDOC_FIELDS}, "times": times, "obs": obs, "focus": job.get("focus", [])}
+    if job.get("edit") is None or job.get("cat") != "stylecat":
+      return rec
+    # the SAME document object edited through the model API after it has been snapshotted (an initial value replaced by
+    # another value of the same property, a specified style replaced or removed) and snapshotted again: nothing remembered
+    # from the first round may show
+    import copy
+    import random
+    import ttconv.style_properties as sp
+    from .stylecat import catalogue
+    index = catalogue()[1]
+    er = random.Random(job["edit"])
+    ad2 = copy.deepcopy(ad)
+    changed = False
+    if ad2.get("initials") and er.random() < 0.7:
+      k = er.randrange(len(ad2["initials"]))
+      prop = ad2["initials"][k][0]
+      others = [t for t in index[prop] if t != ad2["initials"][k][1]]
+      if others:
+        ad2["initials"][k][1] = er.choice(others)
+        doc.put_initial_value(getattr(sp.StyleProperties, prop), cat[ad2["initials"][k][1]])
+        changed = True
+    styled = [k for k in range(ad2["n"]) if ad2["styles"][k]]
+    if styled and (not changed or er.random() < 0.5):
+      k = er.choice(styled)
+      j = er.randrange(len(ad2["styles"][k]))
+      prop = ad2["styles"][k][j][0]
+      others = [t for t in index[prop] if t != ad2["styles"][k][j][1]]
+      if others and er.random() < 0.7:
+        ad2["styles"][k][j][1] = er.choice(others)
+        _e[k].set_style(getattr(sp.StyleProperties, prop), cat[ad2["styles"][k][j][1]])
+      else:
+        del ad2["styles"][k][j]
+        _e[k].set_style(getattr(sp.StyleProperties, prop), None)
+      changed = True
+    if not changed:
+      return rec
+    sdoc2 = sdoc_of(ad2, cat)
+    obs2 = [observe_styles(doc, t, D, job.get("focus") or (), ad2.get("t0", 0)) for t in times]
+    return [rec, {"id": rid + 1000000, "doc": {k: sdoc2[k] for k in SDOC_FIELDS}, "times": times, "obs": obs2, "focus": job.get("focus", []),
+                  "ad2": ad2}]
   except Exception as ex:  # pylint: disable=broad-except
     import traceback
     return {"id": rid, "error": repr(ex), "tb": traceback.format_exc()[-1500:]}
@@ -143,7 +183,10 @@ def _job(job):
 
 def observe_all(jobs, procs=12):
   with Pool(procs) as pool:
-    return pool.map(_job, jobs, chunksize=16)
+    out = []
+    for r in pool.map(_job, jobs, chunksize=16):
+      out.extend(r if isinstance(r, list) else [r])
+    return out
 
 
 # ----------------------------------------------------------------------------------------------------------
